@@ -30,6 +30,8 @@ if flat:
     meta['caught_by_checks']=sorted(p for p in caught if caught[p])
     json.dump(meta,open('/verif/%s/meta.json'%d,'w'),indent=1)
     print("%s caught by %s: %s"%(sid, ",".join(meta['caught_by_checks']), " ".join(sorted(set(flat))[:3])))
+elif 'BUILD-FAILED' in txt:
+    print("%s BUILD-FAILED (patched tree does not compile with the harness: re-make the patch)"%sid)
 else:
     print("%s MISSED"%sid)
 PY
